@@ -19,4 +19,15 @@ Additional guidance for this round: other developers have already produced the o
  - boundary sizes and positions (1 or 2 atoms, first / last time step, first / last site, exactly-equal values);
  - a change that only matters for a non-default configuration value.
 """
+if suffix.startswith("r3"):
+    t += """
+Two earlier rounds by other developers already produced, for this property, regressions of these kinds: wrong index / swapped argument / dropped term; stale caches and memoised values; objects reused across steps, trajectories or runs; a tensor of the caller changed in place; two cooperating sites; an interaction of two separately tested features; a non-default configuration value; 1-2 atom boundaries. Aim for YET ANOTHER kind, for example:
+ - the floating-point edge of a formula (cancellation, underflow / overflow of an intermediate product, a tolerance compared in absolute instead of relative terms, float32 sneaking in, an integer division);
+ - an error path: what the objects look like after an exception was raised and caught by the caller, and the next call;
+ - an equivalent spelling of the same input (string vs enum, list vs tuple vs tensor vs numpy array, int vs float, negative index, numpy scalar, 0-d tensor) that takes another branch;
+ - ordering assumptions (dict / set iteration order, sorted vs insertion order, atom names that do not sort like their positions);
+ - something that only shows with 3 levels per atom (leakage), the XY basis, a density matrix, or complex phases, where the 2-level real case is symmetric and hides it;
+ - the last / first element of a loop (final time step, final sweep, last site) or an empty collection;
+ - quantities that are only reported (statistics, result times, tags, atom order) rather than computed with.
+"""
 print(t)
